@@ -3,6 +3,7 @@ package main
 // Solver race: z3-new first; on unknown/timeout z3 4.8.12 and cvc5 in parallel.
 
 import (
+	"strconv"
 	"context"
 	"fmt"
 	"os"
@@ -190,7 +191,7 @@ func dischargeBatch(vc *VC, dir string, tag string, workers int, quick, slow int
 	var b strings.Builder
 	b.WriteString(fmt.Sprintf("(set-option :timeout %d)\n%s(set-logic ALL)\n", quick*1000, vc.Options))
 	pos := 0
-	for _, o := range vc.obls {
+	for k, o := range vc.obls {
 		for ; pos < o.Prefix; pos++ {
 			b.WriteString(vc.S.lines[pos])
 			b.WriteString("\n")
@@ -201,7 +202,9 @@ func dischargeBatch(vc *VC, dir string, tag string, workers int, quick, slow int
 		} else {
 			b.WriteString("(assert " + and(o.Reach, not(o.Goal)) + ")\n")
 		}
-		b.WriteString("(check-sat)\n(pop 1)\n")
+		// every answer is tagged with the number of its query: an answer is never attributed to
+		// another obligation, whatever else the solver prints or fails to print
+		b.WriteString(fmt.Sprintf("(echo \"@%d\")\n(check-sat)\n(pop 1)\n", k))
 	}
 	if pat := os.Getenv("GOVC_DUMP"); pat != "" {
 		// debugging aid: write the stand-alone query of every obligation whose name contains pat
@@ -221,18 +224,27 @@ func dischargeBatch(vc *VC, dir string, tag string, workers int, quick, slow int
 	if os.Getenv("GOVC_TIMING") != "" && el > 1 {
 		fmt.Fprintf(os.Stderr, "timing: %s batch %.1fs (%d obligations)\n", tag, el, len(vc.obls))
 	}
-	var answers []string
+	answers := map[int]string{}
+	cur := -1
 	for _, ln := range strings.Split(string(out), "\n") {
-		ln = strings.TrimSpace(ln)
-		if ln == "sat" || ln == "unsat" || ln == "unknown" {
-			answers = append(answers, ln)
+		ln = strings.Trim(strings.TrimSpace(ln), "\"")
+		if strings.HasPrefix(ln, "@") {
+			cur = -1
+			if k, err := strconv.Atoi(ln[1:]); err == nil {
+				cur = k
+			}
+			continue
+		}
+		if (ln == "sat" || ln == "unsat" || ln == "unknown") && cur >= 0 {
+			answers[cur] = ln
+			cur = -1
 		}
 	}
 	var rest []*Obligation
 	for i, o := range vc.obls {
 		a := "unknown"
-		if i < len(answers) {
-			a = answers[i]
+		if v, ok := answers[i]; ok {
+			a = v
 		}
 		o.Solver, o.Secs = "z3-5.1.0", el/float64(len(vc.obls))
 		switch {
